@@ -169,7 +169,8 @@ def rule_group(ctx, R):
                 found = True
                 # the outcome  max_pos <= i  must lead back to the loop head without touching the command fields
                 r = M.roles.of_origin(o)
-                R.check("ELEM<ENUMERATE(CHARS(CODE))>.0" in r, "parse:skip:index", "the skip test compares the recorded last end-syllable position with the current character index: %s" % r[:160], t["span"]["at"])
+                sides = [M.roles.of_origin(o[2]), M.roles.of_origin(o[3])]
+                R.check("ELEM<ENUMERATE(CHARS(CODE))>.0" in sides, "parse:skip:index", "the skip test compares the recorded last end-syllable position with the current character index: %s" % r[:160], t["span"]["at"])
     R.anchor(found, "skip_test", "comparison of max_pos[class] with the current index")
 
 
